@@ -143,6 +143,14 @@ Proof.
     destruct rp; destruct gr; crunch.
 Qed.
 
+Lemma bridge_term_entry cfg s :
+  (forall q, entry_model cfg TSignal (run_entry arm_table cfg s TSignal (Some q)) =
+             Some (let r := enter_terminate cfg s TSignal (shutdown_method cfg q) in
+                   (fst r, map sout_of (snd r)))) /\
+  entry_model cfg TTimeout (run_entry arm_table cfg s TTimeout None) =
+  Some (let r := enter_terminate cfg s TTimeout (timeout_method cfg) in (fst r, map sout_of (snd r))).
+Proof. split; [exact (bridge_term_entry_signal cfg s)|exact (bridge_term_entry_timeout cfg s)]. Qed.
+
 (* the end of the grace period *)
 (* == block term_expiry == *)
 Lemma bridge_term_expiry cfg s x :
@@ -397,6 +405,11 @@ Proof.
   - intros H; injection H as <-; cbn [fst]; rewrite Hl; exact I.
   - intros H; injection H as <-; cbn [fst]; rewrite Hl; exact I.
 Qed.
+
+Lemma life_states_well_formed c :
+  lwf (linit c) /\
+  forall tbl s e r, lwf s -> lstep tbl c s e = Ok r -> lwf (fst r).
+Proof. split; [exact (lwf_init c)|]. intros tbl s e r. exact (lstep_wf tbl c s e r). Qed.
 
 Theorem arm_bridge_life c s e :
   lwf s -> lstep_src pause_table arm_table c s e = Some (lstep pause_table c s e).
